@@ -3,7 +3,7 @@
    solve_brent, the shock / rarefaction samplers, sample_left/right_state and solve().
    Written once over the scalar record of Common/Scalar.v; literal transcription: the order of the
    floating-point operations is the order of the C++ expressions (left-associative).  The vacuum part
-   of solve() (solve_vacuum and its three samplers) is the model of C05_Defs.v, reused unchanged.
+   of solve() (solve_vacuum and its three samplers) coincides with the model of C05_Defs.v (proved, C11_Proofs.v).
    Hand model; tie = bit-exact correspondence with the compiled solver (props/c11.py).
    C++ comparison "x > y" is written "y <? x", "x >= y" is "y <=? x", "x != y" is "negb (x =? y)". *)
 From Coq Require Import Bool ZArith.
@@ -170,6 +170,12 @@ Section Exact.
     else Some (brent_loop f fuel (brent_init Plow Phigh fPlow fPhigh) 0%Z).
 
   (* ---- samplers: (rho, u, P) ---- *)
+  (* the base of the density / pressure powers in a rarefaction fan.  clamp = true: "std::max(0., ...)" around it (the fan
+     expressions are evaluated up to a rounding error beyond the vacuum front / a tail with P* = 0, where the unguarded
+     base comes out slightly negative and std::pow returns NaN); clamp = false: the code without that guard *)
+  Variable clamp : bool.
+  Definition guard (b : F) : F := if clamp then smax S 0 b else b.
+
   Definition right_shock_speed (uR aR PRinv Pstar : F) : F := uR + aR * ssqrt S (_gp1d2g * (Pstar * PRinv) + _gm1d2g).
   Definition right_shock_density (rhoR PRinv Pstar : F) : F :=
     rhoR * (Pstar * PRinv + _gm1dgp1) / (_gm1dgp1 * (Pstar * PRinv) + 1).
@@ -181,7 +187,7 @@ Section Exact.
 
   Definition right_tail_speed (aR PRinv ustar Pstar : F) : F := ustar + aR * spow S (Pstar * PRinv) _gm1d2g.
   Definition right_fan (rhoR uR PR aR dxdt : F) : F * F * F :=
-    let base := _tdgp1 - _gm1dgp1 * (uR - dxdt) / aR in
+    let base := guard (_tdgp1 - _gm1dgp1 * (uR - dxdt) / aR) in
     (rhoR * spow S base _tdgm1, _tdgp1 * (- aR + _gm1d2 * uR + dxdt), PR * spow S base _tgdgm1).
 
   Definition sample_right_rarefaction_wave (rhoR uR PR aR PRinv ustar Pstar dxdt : F) : F * F * F :=
@@ -207,7 +213,7 @@ Section Exact.
 
   Definition left_tail_speed (aL PLinv ustar Pstar : F) : F := ustar - aL * spow S (Pstar * PLinv) _gm1d2g.
   Definition left_fan (rhoL uL PL aL dxdt : F) : F * F * F :=
-    let base := _tdgp1 + _gm1dgp1 * (uL - dxdt) / aL in
+    let base := guard (_tdgp1 + _gm1dgp1 * (uL - dxdt) / aL) in
     (rhoL * spow S base _tdgm1, _tdgp1 * (aL + _gm1d2 * uL + dxdt), PL * spow S base _tgdgm1).
 
   Definition sample_left_rarefaction_wave (rhoL uL PL aL PLinv ustar Pstar dxdt : F) : F * F * F :=
@@ -291,10 +297,68 @@ Section Exact.
       else
         let '(r, u, p) := sample_left_state rhoL uL PL aL PLinv ustar Pstar dxdt in ((-1)%Z, r, u, p).
 
-  (* ---- solve(): vacuum handling is C05's exact_solve_novac (repaired fan coefficient), otherwise the
-          star state and the sampling above.  Second component: the star state if one was computed ---- *)
+  (* ---- vacuum: sample_right_vacuum / sample_left_vacuum / sample_vacuum_generation / solve_vacuum and the vacuum tests
+          of solve().  The fan branches are textually the fan expressions above (same operation order), so they are written
+          with left_fan / right_fan; for clamp = true these definitions ARE the model of C05_Defs.v (repaired fan
+          coefficient, guarded bases): lemma solve_novac_is_c05 in C11_Proofs.v, for every scalar instance ---- *)
+  Definition with_flag (fl : Z) (s : F * F * F) : Z * F * F * F := let '(r, v, p) := s in (fl, r, v, p).
+
+  Definition sample_right_vacuum (rhoL uL PL aL dxdt : F) : Z * F * F * F :=
+    if (uL - aL) <? dxdt then
+      let SL := uL + _tdgm1 * aL in
+      if dxdt <? SL then with_flag (-1) (left_fan rhoL uL PL aL dxdt)
+      else (0%Z, 0, 0, 0)
+    else ((-1)%Z, rhoL, uL, PL).
+
+  Definition sample_left_vacuum (rhoR uR PR aR dxdt : F) : Z * F * F * F :=
+    if dxdt <? (uR + aR) then
+      let SR := uR - _tdgm1 * aR in
+      if SR <? dxdt then with_flag 1 (right_fan rhoR uR PR aR dxdt)
+      else (0%Z, 0, 0, 0)
+    else (1%Z, rhoR, uR, PR).
+
+  Definition sample_vacuum_generation (rhoL uL PL aL rhoR uR PR aR dxdt : F) : Z * F * F * F :=
+    let SR := uR - _tdgm1 * aR in
+    let SL := uL + _tdgm1 * aL in
+    if (dxdt <? SR) && (SL <? dxdt) then (0%Z, 0, 0, 0)
+    else if SL <? dxdt then
+      if dxdt <? (uR + aR) then with_flag 1 (right_fan rhoR uR PR aR dxdt)
+      else (1%Z, rhoR, uR, PR)
+    else
+      if (uL - aL) <? dxdt then with_flag (-1) (left_fan rhoL uL PL aL dxdt)
+      else ((-1)%Z, rhoL, uL, PL).
+
+  Definition solve_vacuum (rhoL uL PL aL : F) (vacuumL : bool) (rhoR uR PR aR : F) (vacuumR : bool) (dxdt : F) : Z * F * F * F :=
+    if vacuumL && vacuumR then (0%Z, 0, 0, 0)
+    else if vacuumR then sample_right_vacuum rhoL uL PL aL dxdt
+    else if vacuumL then sample_left_vacuum rhoR uR PR aR dxdt
+    else sample_vacuum_generation rhoL uL PL aL rhoR uR PR aR dxdt.
+
+  (* the part of solve() before the iterative solve; None = the iterative solve is needed *)
+  Definition solve_novac (rhoL uL PL rhoR uR PR dxdt : F) : option (Z * F * F * F) :=
+    let rhoLinv := 1 / rhoL in
+    let rhoRinv := 1 / rhoR in
+    let PLinv := 1 / PL in
+    let PRinv := 1 / PR in
+    let vacuumL := is_vacuum F S rhoL PL rhoLinv PLinv in
+    let vacuumR := is_vacuum F S rhoR PR rhoRinv PRinv in
+    if vacuumL || vacuumR then
+      let aL := if vacuumL then 0 else soundspeed rhoLinv PL in
+      let aR := if vacuumR then 0 else soundspeed rhoRinv PR in
+      Some (solve_vacuum rhoL uL PL aL vacuumL rhoR uR PR aR vacuumR dxdt)
+    else
+      let aL := soundspeed rhoLinv PL in
+      let aR := soundspeed rhoRinv PR in
+      let aLfac := _tdgm1 * aL in
+      let aRfac := _tdgm1 * aR in
+      let udiff := uR - uL in
+      if (aLfac + aRfac) <=? udiff then
+        Some (solve_vacuum rhoL uL PL aL vacuumL rhoR uR PR aR vacuumR dxdt)
+      else None.
+
+  (* ---- solve().  Second component: the star state if one was computed ---- *)
   Definition solve (nfuel bfuel : nat) (rhoL uL PL rhoR uR PR dxdt : F) : (Z * F * F * F) * option star :=
-    match exact_solve_novac F S (cb c) false rhoL uL PL rhoR uR PR dxdt with
+    match solve_novac rhoL uL PL rhoR uR PR dxdt with
     | Some smp => (smp, None)
     | None =>
       let st := star_state nfuel bfuel rhoL uL PL rhoR uR PR in
